@@ -901,3 +901,161 @@ Proof.
     + rewrite Fp in Hp. rewrite nth_error_upd_neq in Hp by congruence.
       apply (Dp k' p a Hp Hs Hpc).
 Qed.
+
+Lemma step_main_closed_mono W s i pc s' a :
+  Inv W s -> nth_error (st_main s) i = Some pc -> step_main s i pc = Some s' ->
+  nth a (st_closed s) 0 <= nth a (st_closed s') 0.
+Proof.
+  intros I Hi H. destruct (ic_closed _ (iC _ _ I) i pc Hi) as [Cc _].
+  main_cases pc H; simpl; auto.
+  all: rewrite nth_upd; destruct ((a =? i) && (i <? length (st_closed s))) eqn:E; auto;
+    apply andb_true_iff in E as [E _]; apply Nat.eqb_eq in E; subst a; simpl in Cc; lia.
+Qed.
+
+Lemma InvD_step W s t s' : Inv W s -> step s t = Some s' -> InvD W s'.
+Proof.
+  intros I H. destruct t as [i|k|]; simpl in H.
+  - destruct (nth_error (st_main s) i) as [pc|] eqn:Hi; [|discriminate].
+    destruct (step_main_frame _ _ _ _ H) as (F1 & F2 & F3 & F4 & F5 & F6 & _).
+    destruct (iD _ _ I) as [Dc Dl Dp].
+    constructor; rewrite ?F2, ?F3, ?F4, ?F5, ?F6; auto.
+    intros k p a Hp Hs Hpc. specialize (Dp k p a Hp Hs Hpc).
+    unfold edge_closed in *. apply Nat.ltb_lt in Dp. apply Nat.ltb_lt.
+    pose proof (step_main_closed_mono _ _ _ _ _ a I Hi H). lia.
+  - destruct (nth_error (st_proc s) k) as [pr|] eqn:Hk; [|discriminate].
+    eapply InvD_step_proc; eauto.
+  - destruct (st_cancel s) eqn:Ec; [discriminate|]. inversion H; subst.
+    destruct (iD _ _ I) as [Dc Dl Dp]. constructor; simpl; auto; discriminate.
+Qed.
+
+Theorem Inv_step W s t s' : Inv W s -> step s t = Some s' -> Inv W s'.
+Proof.
+  intros I H. constructor.
+  - eapply InvL_step; eauto.
+  - eapply InvA_step; eauto.
+  - eapply InvB_step; eauto.
+  - eapply InvC_step; eauto.
+  - eapply InvD_step; eauto.
+Qed.
+
+(* ---- the initial states satisfy the invariant ------------------------------------------------ *)
+
+Lemma sumn_In_zero {A} (f : A -> nat) l : (forall x, In x l -> f x = 0) -> sumn f l = 0.
+Proof.
+  induction l as [|z l IH]; simpl; intro H; auto.
+  rewrite (H z (or_introl eq_refl)), IH; auto.
+Qed.
+
+Lemma edge_procs_In n np p :
+  In p (edge_procs n np) <-> exists a b, a < n /\ b < n /\ 0 < np /\ p = mkProc b (Some a) PRecv.
+Proof.
+  unfold edge_procs. rewrite in_flat_map. split.
+  - intros (a & Ha & Hp). apply in_flat_map in Hp as (b & Hb & Hp).
+    apply in_seq in Ha, Hb. pose proof (repeat_spec _ _ _ Hp) as E.
+    exists a, b. repeat split; try lia; auto. destruct np; [contradiction|lia].
+  - intros (a & b & Ha & Hb & Hnp & ->). exists a. split; [apply in_seq; lia|].
+    apply in_flat_map. exists b. split; [apply in_seq; lia|].
+    destruct np; [lia|]. simpl. auto.
+Qed.
+
+Lemma std_procs_In n std p :
+  In p (std_procs n std) -> exists x, In x std /\ p = mkProc (fst x mod n) None (after false (snd x)).
+Proof. unfold std_procs. rewrite in_map_iff. intros (x & E & Hx). eauto. Qed.
+
+Lemma sumn_psize_std n std : sumn psize (std_procs n std) = workload std.
+Proof.
+  induction std as [|x std IH]; [reflexivity|].
+  unfold std_procs, workload in *. cbn [map sumn fold_right].
+  rewrite psize_after, IH. reflexivity.
+Qed.
+
+Lemma init_procs_hold n np std x :
+  In x (edge_procs n np ++ std_procs n std) -> phold x = 0 /\ pd2 x = 0 /\ pd3 x = 0.
+Proof.
+  intro H. apply in_app_or in H as [H|H].
+  - apply edge_procs_In in H as (a & b & _ & _ & _ & ->). simpl. auto.
+  - apply std_procs_In in H as (y & _ & ->). destruct (snd y); simpl; auto.
+Qed.
+
+Theorem Inv_init n np std : 1 <= n -> 1 <= np -> Inv (workload std) (init n np std).
+Proof.
+  intros Hn Hnp. unfold init.
+  assert (Hmain : forall i pc, nth_error (repeat MWaitStd n) i = Some pc -> pc = MWaitStd /\ i < n)
+    by (intros; eapply ne_repeat_inv; eauto).
+  constructor.
+  - (* InvL *)
+    constructor; simpl; rewrite ?repeat_length; auto.
+    + intros k p Hk. apply nth_error_In in Hk. apply in_app_or in Hk as [H|H].
+      * apply edge_procs_In in H as (a & b & Ha & Hb & _ & ->). simpl. split; auto.
+        intros a' E. inversion E; subst; auto.
+      * apply std_procs_In in H as (y & _ & ->). simpl. split.
+        -- apply Nat.mod_upper_bound. lia.
+        -- intros; discriminate.
+    + intros q [].
+    + intros a b Ha Hb.
+      assert (Hin : In (mkProc b (Some a) PRecv) (edge_procs n np ++ std_procs n std)).
+      { apply in_or_app. left. apply edge_procs_In. exists a, b. repeat split; auto. }
+      apply In_nth_error in Hin as [k Hk]. exists k, (mkProc b (Some a) PRecv). auto.
+  - (* InvA *)
+    constructor; simpl; unfold nD2, nD3; simpl.
+    + rewrite sumn_repeat. simpl.
+      rewrite (sumn_In_zero phold) by (intros x Hx; apply (init_procs_hold _ _ _ _ Hx)). lia.
+    + intros k p Hk Hs Hp. apply nth_error_In in Hk. apply in_app_or in Hk as [H|H].
+      * apply edge_procs_In in H as (a & b & _ & _ & _ & ->). discriminate.
+      * apply std_procs_In in H as (y & _ & ->). simpl. apply ne_repeat.
+        apply Nat.mod_upper_bound. lia.
+    + rewrite sumn_repeat. simpl.
+      rewrite (sumn_In_zero pd2) by (intros x Hx; apply (init_procs_hold _ _ _ _ Hx)).
+      split; [intros [H|H]; [discriminate|lia]|lia].
+    + rewrite sumn_repeat. simpl.
+      rewrite (sumn_In_zero pd3) by (intros x Hx; apply (init_procs_hold _ _ _ _ Hx)). lia.
+    + lia.
+  - (* InvB *)
+    constructor; simpl.
+    + rewrite sumn_repeat. simpl. lia.
+    + intros; discriminate.
+    + intros i pc Hi. destruct (Hmain _ _ Hi) as [-> Hlt]. simpl.
+      apply nth_of_nth_error. apply ne_repeat. auto.
+    + rewrite sumn_repeat. simpl.
+      rewrite (all_false_nth (repeat true n) 0); [simpl; lia|].
+      apply nth_of_nth_error. apply ne_repeat. lia.
+  - (* InvC *)
+    constructor; simpl; auto.
+    + intros i pc Hi. destruct (Hmain _ _ Hi) as [-> Hlt]. simpl. split.
+      * apply nth_of_nth_error. apply ne_repeat. auto.
+      * intros; discriminate.
+    + intros i pc Hi. destruct (Hmain _ _ Hi) as [-> Hlt]. simpl.
+      split; apply nth_of_nth_error; apply ne_repeat; apply nxt_lt; auto.
+    + intros i pc Hi Hph. destruct (Hmain _ _ Hi) as [-> Hlt]. simpl in Hph. lia.
+    + intros i Hi. destruct (Hmain _ _ Hi) as [E _]. discriminate.
+    + symmetry. apply log_from_nil. intros j Hj.
+      rewrite (nth_of_nth_error _ _ _ MWaitStd (ne_repeat MWaitStd n j Hj)). reflexivity.
+  - (* InvD *)
+    constructor; simpl; auto.
+    + rewrite sumn_app, sumn_psize_std.
+      rewrite (sumn_In_zero psize); [lia|].
+      intros x Hx. apply edge_procs_In in Hx as (a & b & _ & _ & _ & ->). reflexivity.
+    + intros k p a Hk Hs Hp. apply nth_error_In in Hk. apply in_app_or in Hk as [H|H].
+      * apply edge_procs_In in H as (a' & b & _ & _ & _ & ->). discriminate.
+      * apply std_procs_In in H as (y & _ & ->). discriminate.
+Qed.
+
+(* ---- reachable states ------------------------------------------------------------------------------ *)
+
+Inductive reach (s0 : state) : state -> Prop :=
+| reach_init : reach s0 s0
+| reach_step s t s' : reach s0 s -> step s t = Some s' -> reach s0 s'.
+
+Theorem reach_Inv n np std s :
+  1 <= n -> 1 <= np -> reach (init n np std) s -> Inv (workload std) s.
+Proof.
+  intros Hn Hnp R. induction R as [|s t s' R IH H].
+  - apply Inv_init; auto.
+  - eapply Inv_step; eauto.
+Qed.
+
+Lemma reach_run s0 s sched : reach s0 s -> reach s0 (run s sched).
+Proof.
+  revert s. induction sched as [|t r IH]; intros s R; simpl; auto.
+  destruct (step s t) as [s'|] eqn:E; auto. apply IH. eapply reach_step; eauto.
+Qed.
